@@ -458,7 +458,7 @@ impl Exec {
                             let kind = self.last_prog.get(ti).and_then(|p| p.get(oi));
                             match kind {
                                 Some(crate::conc::COp::Add(_)) => self.n_adds += 1,
-                                Some(crate::conc::COp::Cancel(_)) => {
+                                Some(crate::conc::COp::Cancel(_)) | Some(crate::conc::COp::Upd { away: true, .. }) => {
                                     if s.starts_with("ok=") && s != "ok=-" {
                                         self.n_removed += 1;
                                     }
